@@ -61,6 +61,7 @@ type c06relay struct {
 	read        []packets.Packet
 	postPack    []uint32 // TotalBytes after the packet was written back (Pack normalises the header)
 	sizeChanged string
+	lag         bool // echo one packet behind
 	nextAt      time.Time
 	garbled     bool
 	bodyHit     int // index of a packet whose body (not its fixed header) was damaged, or -1
@@ -103,7 +104,7 @@ func runC06(tb TB, p *sim.Plan) *sim.Outcome {
 		fault := p.Params["fault"]
 		var relays []*c06relay
 		for i := 0; i < n; i++ {
-			r := &c06relay{conn: simnet.NewConn(sc, i, fmt.Sprintf("relay%d", i)), ver: pick(rng, []byte{3, 4, 5, 5}), eofAt: -1, bodyHit: -1}
+			r := &c06relay{conn: simnet.NewConn(sc, i, fmt.Sprintf("relay%d", i)), ver: pick(rng, []byte{3, 4, 5, 5}), eofAt: -1, bodyHit: -1, lag: rng.IntN(2) == 0}
 			// a stream of valid packets
 			np := 1 + rng.IntN(8)
 			for k := 0; k < np; k++ {
@@ -212,6 +213,9 @@ func runC06(tb TB, p *sim.Plan) *sim.Outcome {
 					out.Faults["net.huge_length_claim"]++
 				}
 			}
+			if r.eofAt == 1<<30 {
+				r.lag = false // no EOF will ever flush the packet a lagging relay holds back
+			}
 			relays = append(relays, r)
 		}
 		finished := 0
@@ -236,25 +240,47 @@ func runC06(tb TB, p *sim.Plan) *sim.Outcome {
 				case 5:
 					rd.SetVersion(packets.Version5)
 				}
+				var pending packets.Packet
 				for {
 					pk, err := rd.ReadPacket()
 					if err != nil {
 						r.readErr = err.Error()
+						if pending != nil {
+							wr.WriteAndFlush(pending)
+						}
 						return
 					}
 					if n := len(r.read); n > 0 && r.sizeChanged == "" {
-						// the previous packet's size must not change because another packet was read
-						if now := packets.TotalBytes(r.read[n-1]); now != r.postPack[n-1] {
-							r.sizeChanged = fmt.Sprintf("packets.TotalBytes of packet #%d was %d after it had been read and written back and is %d after the next packet was read from the same reader", n-1, r.postPack[n-1], now)
+						// the previous packet's size must not change because another packet was read: neither before it
+						// was written back (lagging relays: it still carries the header the reader gave it) nor after
+						want, when := r.postPack[n-1], "after it had been read and written back"
+						if pending != nil {
+							want, when = r.totals[n-1], "right after it had been read"
+						}
+						if now := packets.TotalBytes(r.read[n-1]); now != want {
+							r.sizeChanged = fmt.Sprintf("packets.TotalBytes of packet #%d was %d %s and is %d after the next packet was read from the same reader", n-1, want, when, now)
 						}
 					}
 					r.totals = append(r.totals, packets.TotalBytes(pk))
 					r.read = append(r.read, pk)
-					if err := wr.WriteAndFlush(pk); err != nil {
+					out1 := pk
+					if r.lag {
+						// echo one packet behind: the previous packet is written only after this one was read
+						out1, pending = pending, pk
+						r.postPack = append(r.postPack, 0)
+						if out1 == nil {
+							continue
+						}
+					}
+					if err := wr.WriteAndFlush(out1); err != nil {
 						r.readErr = "write: " + err.Error()
 						return
 					}
-					r.postPack = append(r.postPack, packets.TotalBytes(pk))
+					if r.lag {
+						r.postPack[len(r.read)-2] = packets.TotalBytes(out1)
+					} else {
+						r.postPack = append(r.postPack, packets.TotalBytes(pk))
+					}
 				}
 			})
 		}
